@@ -527,10 +527,18 @@ func (l *IPFSLog) Join(otherLog iface.IPFSLog, size int) (iface.IPFSLog, error) 
 		return l, nil
 	}
 
+	// Read the other log before locking this one: holding our write lock while
+	// asking for the other log's read lock deadlocks two logs that merge each
+	// other. Heads are read first, entries second: the log is append-only, so the
+	// entries read later contain the whole history of those heads, and the merge
+	// sees exactly the state the other log had when its heads were read.
+	otherHeads := otherLog.RawHeads()
+	otherEntries := otherLog.GetEntries()
+
 	l.lock.Lock()
 	defer l.lock.Unlock()
 
-	newItems := difference(otherLog.GetEntries(), otherLog.RawHeads().Slice(), l)
+	newItems := difference(otherEntries, otherHeads.Slice(), l)
 
 	wg := &sync.WaitGroup{}
 	wg.Add(newItems.Len())
@@ -581,7 +589,7 @@ func (l *IPFSLog) Join(otherLog iface.IPFSLog, size int) (iface.IPFSLog, error) 
 		}
 	}
 
-	mergedHeads := entry.FindHeads(l.heads.Merge(otherLog.RawHeads()))
+	mergedHeads := entry.FindHeads(l.heads.Merge(otherHeads))
 
 	for idx, e := range mergedHeads {
 		// notReferencedByNewItems
